@@ -535,6 +535,30 @@ fn c19_directed(rep: &mut Report, seed: u64) {
     }
 }
 
+/// C09 (and C07) on the directed fold scripts of the C08 check: streams filled by `ap` and by calls, folded with remote calls in
+/// the body, so that different data know different results inside the same iterations
+fn c09_directed(prop: &str, rep: &mut Report, seed: u64, rounds: u64) {
+    let p = peers_for(4);
+    let ids: Vec<String> = p.iter().map(|x| x.id.clone()).collect();
+    for (si, air) in crate::props::c08::directed_scripts(&ids).iter().enumerate() {
+        if air_parser::parse(air).is_err() { continue; }
+        for round in 0..rounds {
+            let mut net = Net::new(air, &p, &format!("c09-directed-{si}-{round}"));
+            let mut r2 = Rng::new(seed ^ (si as u64 * 12289 + round * 786433));
+            net.run_random(&mut r2, 80);
+            rep.stat("c09_directed_histories");
+            for st in &net.log {
+                rep.evaluations += 1;
+                let why = if prop == "C07" { check_c07_step(&net, st) } else { check_c09_step(st) };
+                if let Some(why) = why {
+                    rep.oracle_fail(json!({"why": format!("{why} [directed fold script {si}, step {} on peer {}]", st.step, net.peers[st.peer].peer.name), "input": step_json(&net, st), "scenario": "c09 directed"}));
+                    return;
+                }
+            }
+        }
+    }
+}
+
 /// C04 on the stream / canon template families of the stream checks (several writers, canon at a designated peer with late
 /// writers, par canons, folds, nested folds, maps): honest histories with races on canon peers and fan-in, which the general
 /// generator produces rarely.  Known-finding classes of other properties (recursive folds) are not generated here.
@@ -623,6 +647,7 @@ pub fn run_property(prop: &str, ctx: &mut Ctx, rep: &mut Report) {
     }
     if prop == "C02" { c02_directed(rep, ctx.seed); }
     if prop == "C19" { c19_directed(rep, ctx.seed); }
+    if prop == "C09" || prop == "C07" { c09_directed(prop, rep, ctx.seed, if ctx.thorough { 30 } else { 4 }); }
     if prop == "C04" { c04_stream_templates(rep, ctx.seed, if ctx.thorough { 1500 } else { 60 }); }
     if prop == "C20" { c20_canon_map_collision_probe(rep); c20_map_scenarios(rep, ctx.seed, if ctx.thorough { 24 } else { 8 }); }
     for hi in 0..pl.histories {
